@@ -868,7 +868,7 @@ class Sim:
             if not pc.closed and not pc.size_changed:
                 full = p.is_full
                 for r in pc.reqs:
-                    if r.accepted_seq is None or not r.work_left() or r.lock_hit:
+                    if r.accepted_seq is None or not r.work_left():
                         continue
                     if full and pc.size:
                         self.stats["probe:spawner_blocked_on_full_pool"] += 1
@@ -1315,6 +1315,9 @@ class Sim:
         for t in exp:
             t.pend_cancel += 1
             t.pend_prop = "C14"
+            if t.state == "U":
+                t.early = True
+                self.stats["fault:cancel_before_first_step"] += 1
         return True
 
     # ---- lock / unlock
@@ -1482,9 +1485,9 @@ class Sim:
                 self.violate("C12", "gather_rex_raised", f"gather_and_close(return_exceptions=True) raised {type(exc).__name__}: {exc!r}")
             elif not injected:
                 self.violate("C12", "gather_foreign_exception", f"gather_and_close() raised {type(exc).__name__}: {exc!r}, not an exception of a task or callback")
-            if self.inj_by_pool[pc.idx] == 0 and not any(r.lock_hit for r in pc.reqs):
+            if self.inj_by_pool[pc.idx] == 0:
                 self.violate("C08", "gather_raised", f"gather_and_close() raised {type(exc).__name__}: {exc!r} although no task or callback raised")
-            elif not injected and not any(r.lock_hit for r in pc.reqs):
+            elif not injected:
                 self.violate("C08", "gather_foreign_exception", f"gather_and_close() raised {type(exc).__name__}: {exc!r}")
             self.check_counters("gather_end")
             return
@@ -1497,7 +1500,7 @@ class Sim:
                 self.violate("C08", "returned_with_unfinished_task", f"gather_and_close returned, {t.name} (state {t.state}) not done")
                 break
         for r in pc.reqs:
-            if r.accepted_seq is not None and r.accepted_seq < d.seq_start and r.work_left() and not r.lock_hit:
+            if r.accepted_seq is not None and r.accepted_seq < d.seq_start and r.work_left():
                 self.violate("C08", "returned_with_work_left", f"gather_and_close returned, r{r.label} has {r.total() - len(r.tasks) - r.skipped} invocations left")
                 break
         for w in pc.waiters:
@@ -1651,9 +1654,8 @@ class Sim:
                 if t.n < 0:
                     continue
                 if t.state != "E" or not t.task.done():
-                    if not t.early:
-                        self.violate("C02", "task_never_finished", f"end of run: {t.name} in state {t.state}, done={t.task.done()}")
-                        self.violate("C03", "task_never_finished", f"end of run: {t.name} in state {t.state}, done={t.task.done()}")
+                    self.violate("C02", "task_never_finished", f"end of run: {t.name} in state {t.state}, done={t.task.done()}")
+                    self.violate("C03", "task_never_finished", f"end of run: {t.name} in state {t.state}, done={t.task.done()}")
                     continue
                 ek, ck = t.req.ecb_kind, t.req.ccb_kind
                 if ek is not None and t.ecb_calls != 1:
@@ -1662,14 +1664,14 @@ class Sim:
                 exp_c = 1 if (t.exit_how == "cancel" and ck is not None) else 0
                 if t.ccb_calls != exp_c:
                     self.violate("C03", "ccb_count", f"cancel callback ran {t.ccb_calls}x for {t.name} (coroutine ended by {t.exit_how})")
-                if t.pend_cancel > 0 and t.exit_how != "cancel" and t.cancel_obs == 0 and not t.early:
+                if t.pend_cancel > 0 and t.exit_how != "cancel" and t.cancel_obs == 0:
                     self.violate(t.pend_prop or "C06", "cancel_lost", f"{t.name} was cancelled but never observed it")
-            if pc.n_run and not any(t.early for t in pc.tasks):
+            if pc.n_run:
                 self.violate("C02", "running_at_end", f"end of run: {pc.n_run} tasks still counted as running")
             for r in pc.reqs:
                 if r.accepted_seq is None or r.cancelled_seq is not None or r.probe:
                     continue
-                if blocked_forever or r.lock_hit:
+                if blocked_forever:
                     continue
                 if r.elems is None:
                     if len(r.calls) != r.num:
@@ -1712,9 +1714,7 @@ class Sim:
             N = pc.size
             if N is None or N == 0 or N > 8 or pc.closed or pc.size_changed:
                 continue
-            if any(t.early for t in pc.tasks):
-                continue
-            if pc.n_run or pc.n_C or pc.cb_open:
+            if pc.n_C or pc.cb_open:
                 continue
             tagged = ["C02"] + (["C12"] if self.inj_by_pool[pc.idx] or self.stats["fault:factory_raises"] else [])
             if pc.locked:
